@@ -29,7 +29,10 @@ TEMPLATES = {
     # templates that cannot be loaded or rendered at all
     "broken-syntax": "{% for x in %}\n", "broken-unclosed": "{% for c in copyright_lines %}\n{{ c }}\n", "broken-filter": "{{ copyright_lines | nosuchfilter }}\n",
     "broken-undefined": "{{ nosuch.attr }}\n", "broken-div0": "{{ 1 // 0 }}\n", "broken-include": "{% include 'nope.jinja2' %}\n",
-    "broken-type": "{{ copyright_lines + 1 }}\n", "broken-utf8": {"hex": b"\xff\xfe{{ x }}\n".hex()},
+    "broken-type": "{{ copyright_lines + 1 }}\n",
+    # renders fine, but what it renders holds a tag that cannot be parsed
+    "broken-static-expression": ("{% for copyright_line in copyright_lines %}\n{{ copyright_line }}\n{% endfor %}\nSPDX-License-Identifier: MIT AND\n"
+                                 "{% for expression in spdx_expressions %}\nSPDX-License-Identifier: {{ expression }}\n{% endfor %}\n"), "broken-utf8": {"hex": b"\xff\xfe{{ x }}\n".hex()},
     # pre-commented and information-dropping
     "nolicence.commented": ("# Project header\n#\n{% for copyright_line in copyright_lines %}\n# {{ copyright_line }}\n{% endfor %}\n"),
     "nothing.commented": "# Just some text\n",
